@@ -91,6 +91,22 @@ func behaviourClass(steps []step, verdictKey string) string {
 	if v, ok := last["deletes"].([]interface{}); ok && len(v) > 0 {
 		feat["refdel"] = true
 	}
+	if st := toStrings(last["staleTracked"]); len(st) > 0 {
+		feat["stale-tracked"] = true // a cached remote-tracking ref whose branch is gone from the remote
+		live, pushed := toStrings(last["liveTracked"]), toSet(toStrings(last["refs"]))
+		all := len(live) > 0
+		for _, b := range live {
+			if !pushed[b] {
+				all = false
+			}
+		}
+		if all {
+			feat["live-all-pushed"] = true // every live tracked branch is itself being pushed
+		}
+		if len(live) == 0 {
+			feat["none-live"] = true
+		}
+	}
 	for _, r := range toStrings(last["sole"]) {
 		feat["sole:"+r] = true // some object is retained for this reason alone
 	}
@@ -514,7 +530,11 @@ func init() {
 			c.Infra("simulation of Push found a model-level violation of %s\n%s", rs.Violated, core.Tail(rs.Out, 3000))
 		}
 		appendFile(r.OutFile, rs.OutFile)
+		// classes with a stale remote-tracking ref at the last push go first: that is where trusting the
+		// clone's picture of the remote can go wrong
+		samplePriority = func(class string) bool { return strings.Contains(class, "stale-tracked") }
 		bs, total, nclasses := sampleBehaviours(c, r.OutFile, "verdict", budget)
+		samplePriority = nil
 		requireActions(c, "commit", "damage", "otherpush", "otherdelete", "push", "merge")
 		c.Set("push_edges_emitted", total)
 		c.Set("behaviour_classes", nclasses)
@@ -530,7 +550,7 @@ func init() {
 			cls[b.class] = true
 		}
 		c.Set("distinct_nontrivial", len(cls))
-		c.Set("rule", "behaviours = TLC per-edge output of spec/Push.tla for every edge ending in a push; sampled deterministically (VERIF_SEED) round-robin over classes (last-push mode x verdict x number of pushes x features damage/otherpush/merge/raw/delete/branch); every third behaviour (by hash) is replayed against a file:// remote (standalone file transfer, git-lfs itself is the server), the others against the HTTP server; distinct_nontrivial = classes replayed")
+		c.Set("rule", "behaviours = TLC per-edge output of spec/Push.tla for every edge ending in a push; sampled deterministically (VERIF_SEED) round-robin over classes (last-push mode x verdict x number of pushes x features damage/otherpush/otherdelete/merge/raw/delete/branch/stale remote-tracking ref with all, some or none of the live ones pushed; classes with a stale remote-tracking ref take a quarter of the budget first); every third behaviour (by hash) is replayed against a file:// remote (standalone file transfer, git-lfs itself is the server), the others against the HTTP server; distinct_nontrivial = classes replayed")
 		for i := 0; i < len(bs); i += len(bs)/4 + 1 {
 			c.Sample(json.RawMessage(bs[i].raw))
 		}
